@@ -79,6 +79,10 @@ func DateTime(ctx *runtime.Task, funcExpr *ast.CallExpr) *errchain.PlError {
 		return nil //nolint:nilerr
 	}
 
+	if selfContaining(cont.Value) {
+		return runtime.NewRunError(ctx, errSelfContaining, funcExpr.Param[0].StartPos())
+	}
+
 	if v, err := DateFormatHandle(cont.Value, precision, fmts); err != nil {
 		return runtime.NewRunError(ctx, err.Error(), funcExpr.NamePos)
 	} else if err := addKey2PtWithVal(ctx.InData(), key, v, ast.String,
